@@ -16,9 +16,9 @@ CLAIMS = {
          "6.C03", "big-operator abstraction of T2/T3-instrumented comprehensions/joins + rxeq language equality + typing POSTs with recursive builds replaced by their contract"),
  "C04": ("proof", "NodeNot / NodeNotOperand.get_regex proved equal to 'negative look-ahead on the argument, then exactly one record / one operand field', START/END/UNIT/ENTRY, times wrappers; NotHandler typing (arity errors, child typed in the same context).",
          "6.C04", "rxeq language VCs with look-ahead letters + typing POSTs"),
- "C05": ("other", "CapturesManager (bounded: tables <= 4 names), the 4 capture builders (first occurrence registers + Reference, later occurrence Call with the registration index), one capturing group per Reference and none elsewhere, DEN of all 9 capture node classes against the denotation incl. the README register table. Level 'other': register-family captures deviate from the documented semantics (4 listed known findings, pinned), and the capture table search loop is checked for tables of <= 4 names only.",
+ "C05": ("proof", "CapturesManager.get_capture_index / capture_is_registered on a table of any length (search-loop rule: the value returned is 1 + the least index whose entry equals the name, ValueError iff absent); the 4 capture builders against that contract (any table) (first occurrence registers + Reference, later occurrence Call with the registration index), exactly one capturing group per Reference node and none in any other node class (CAPS on every node scenario), DEN of all 9 capture node classes against the denotation incl. the README register table at operand and deref level, typing order. Concrete tables of <= 4 names are run in addition (reported as bounded checks).",
          "6.C05", "rxeq language VCs with capture/back-reference letters; pinned second specs for known findings"),
- "C07": ("other", "START-a/b/c, END, UNIT, ENTRY, CLOSED for every instruction-level and operand-level node class, and for whole compiled item-list rules; get_first_addr POST. Level 'other' because the register-family capture findings (optional comma) also break END at operand level and the shipped @any macro admits '|' (listed).",
+ "C07": ("proof", "START-a/b/c, END, UNIT, ENTRY, CLOSED for every instruction-level and operand-level node class (incl. capture and register-capture nodes), for whole compiled item-list rules, and for the shipped @any macro placed in operand and mnemonic position through the real node classes; get_first_addr POST. With T-regex (assumed) every reported match is a whole number of records starting at a record start.",
          "6.C07", "rxeq START/END/UNIT VCs"),
  "C06": ("proof", "Compiler half proved for all inputs: PatternNodeDeref/DerefObjectBuilder/DerefObject on every present/absent combination (index and scale together), opaque components, opaque names and concrete representative names, times wrappers; language-equal to [a(+b*c)?(+k)?], with optional % / 0x, exact brackets, comma terminator. Parser half: OperandsParser._process_operand_elem on every memory-operand form with symbolic components yields exactly [a+b*c+k] / [a+b*c] / [+b*c+k] / [a+k] / [a] (symre on structured strings); the joint statement follows because the normal-form text is an instance of the specification language with the same present components.",
          "6.C06", "rxeq language equality of the real deref regex against the bracket-form specification + symbolic execution of the operand normaliser on structured strings"),
@@ -40,7 +40,7 @@ CLAIMS = {
          "6.C08", "symbolic execution on structured strings + symre (group uniqueness as annotated-language VCs) + T1 loop invariant"),
  "C09": ("proof", "get_splitted_operands on every mix of 1-3 operand forms (quick: 8 representative forms for triples, thorough: all 14) splits exactly at the commas between operands; _process_operand_elem maps each of the forms of the statement to its normal form, components symbolic; parse() preserves number and order (symbolic sequence).",
          "6.C09", "symre split/search on structured strings; POST equality of structured results"),
- "C10": ("other", "Instruction.stringify / consume_instruction / finalize produce addr::mnemonic,op,...,| records concatenated in order (symbolic fields, symbolic operand sequence); CLEAN: address, mnemonic and every normalised operand form of G contain no ',', '|' or '::'. Unique decodability then is a paper lemma over this grammar. 'other' because branch-hint mnemonics (jo,pn) violate CLEAN on the unchanged tree (listed known finding).",
+ "C10": ("proof", "Instruction.stringify / consume_instruction / finalize produce addr::mnemonic,op,...,| records concatenated in order (symbolic fields, symbolic operand sequence); CLEAN: address, mnemonic and every normalised operand form of G contain no ',', '|' or '::'. Unique decodability / injectivity then follows by the (paper) lemma that a grammar whose separators never occur inside fields is uniquely decodable; the thorough tier decodes the real stream back and compares it with the independently decoded listing.",
          "6.C10", "POST on the encoder + CLEAN language VCs on the parser's result fields"),
  "C16": ("proof", "Same obligations as C08: in every line shape the padding, byte column, annotation and comment are universally quantified variables that do not occur in the result term (addr, mnemonic, operand token only); label / blank / header / section / elision lines yield no instruction. Scope: listings with a raw-byte column (grammar G); free text that does not contain the keyword data16.",
          "6.C16", "symbolic execution on structured strings: presentation variables absent from the result"),
